@@ -1,7 +1,19 @@
 import SlimProofs.SizePrefixEnc
+import SlimProofs.SizeBound
+import SlimProofs.SizeLabels
 import SlimProps.C08Accept
 /-
   SlimProps.C17 — filter-mode index size (default options, no values).
+
+  First half, `C17_bound`: the serialized index of `n ≥ 1` keys is at most `8·n + 256` bytes,
+  whatever the keys, for `n < 2^31` (Go's own limit: node ids and rank-index entries are
+  `int32`; the proof needs the rank entries, which count up to `2n`, to fit 5-byte varints,
+  i.e. any `n < 2^33` would do).  Ingredients (SlimProofs.Size*): every inner record has ≥ 2
+  labels and every 257-bit record ≥ 11 when nothing is dropped (`SizeLabels.build_labelsOK`),
+  so `#inner ≤ n − 1`, `#nodes ≤ 2n − 1`; per-field size bounds (`SizeFields`); the short table
+  is chosen only when `4·2^shortSize < #inner + 4` (`SizeShort.eTbl_small`, from
+  `memIncr sorted S ≥ 64·2^S − (17 − S)·#inner` and `findMinShortSize`); a linear sum
+  (`SizeBound.protoSize_filter_le`).
 
   Second half of the property, "prepending a common prefix to every key changes the size by at
   most a few bytes":
@@ -67,6 +79,36 @@ theorem C17_prefix_size (keys : List Bytes) (P : Bytes) (t t' : Trie1) (hne : ke
         omega
       exact marshal_size_prefix hn hn' h1 h2 hopt hbc helts hopt0 ws (2 * P.length) hp hp' hI
 
+open BuildShape in
+/-- C17 (bound): in filter mode the serialized index takes at most 8 bytes per key plus 256,
+    whatever the length or content of the keys. -/
+theorem C17_bound (keys : List Bytes) (t : Trie1) (hne : keys ≠ [])
+    (hb : build keys none {} = .ok t) (hn : keys.length < 2 ^ 31) :
+    marshalSize t ≤ 8 * keys.length + 256 := by
+  have hs := build_shape keys none {} t hb hne
+  have hlab := SizeLabels.build_labelsOK keys {} t hb hne
+  have hbc := SizeLabels.build_bigCnt_le keys none {} t hb hne
+  rw [SizeFields.eInners_eq_innersBefore] at hbc
+  have hL := SizeLabels.build_leaves_eq keys {} t hb hne
+  have hmem : ∀ r ∈ Refine.eInners t, Node.inner r ∈ t.nodes.toList := by
+    intro r hr
+    rw [Refine.eInners_eq, List.mem_filterMap] at hr
+    obtain ⟨nd, hnd, h⟩ := hr
+    cases nd with
+    | inner r' => simp only [Refine.innerOf, Option.some.injEq] at h; subst h; exact hnd
+    | leaf _ _ => simp [Refine.innerOf] at h
+  have hopt : t.opt = {} ∧ t.elts = none := by
+    obtain ⟨_, _, st, _, rfl⟩ := build_ok_elim hb hne
+    exact ⟨rfl, rfl⟩
+  have hne' : t.nodes.size ≠ 0 := by have := hs.nonempty; omega
+  have := SizeBound.protoSize_filter_le hs (by rw [hopt.1]) (by rw [hopt.1]) hopt.2 hbc
+    (fun r hr => (hlab _ (hmem r hr)).1) (fun r hr => (hlab _ (hmem r hr)).2)
+    keys.length hL hn
+  unfold marshalSize
+  rw [Refine.encode_eq t hne']
+  simp only [marshalSlim, Frame.frame_length, ← protoSizeSlim_eq]
+  exact this
+
 /-! ### the witness of finding K1 (executable test, not a proof) -/
 
 namespace C17
@@ -116,5 +158,17 @@ example : ∃ t t', build [[0x61], [0x62, 0x63]] none {} = .ok t ∧
     (by intro k hk; simp at hk; rcases hk with rfl | rfl <;> decide)
   exact ⟨t, t', ht, ht'⟩
 
+/-- the bound on a concrete input (3 keys: at most 280 bytes) -/
+example : ∃ t, build [[0x61], [0x61, 0x62], [0x62, 0xe3]] none {} = .ok t ∧ marshalSize t ≤ 280 := by
+  obtain ⟨t, ht⟩ := C08_accept [[0x61], [0x61, 0x62], [0x62, 0xe3]] none {} (by simp) (by decide)
+    (by intro vs h; cases h)
+    (Or.inr (by intro k hk; simp at hk; rcases hk with rfl | rfl | rfl <;> decide))
+  exact ⟨t, ht, C17_bound _ t (by simp) ht (by decide)⟩
+
+-- test (evaluated): the measured sizes are far below the bound
+#guard C17.sizeOfKeys [[0x61], [0x61, 0x62], [0x62, 0xe3]] == some 96
+#guard (C17.sizeOfKeys (C17.witness 11)).map (fun z => decide (z ≤ 8 * 2302 + 256)) == some true
+
+#print axioms C17_bound
 #print axioms C17_prefix_same_shape
 #print axioms C17_prefix_size
